@@ -49,6 +49,31 @@ def anchors(a: Anchors):
                 f"  | 1 => if {ok(handover)} && {ok(multi)} then 1 else -1\n  | 2 => if {ok(multi)} then 1 else -1\n"
                 f"  | 3 => if {ok(notmpl)} && {ok(single)} then 1 else -1\n  | _ => -1\n  end.")
     a.raw("max_shift_divisions", LB, "", "how often max_shifts is divided by the scale before it reaches a model, per entry point", units_flow)
+
+    def group_units_flow(tree, src):
+        """the same for the group entry points: inside the loop over the groups the range in pixels is bound to a new name from the (never
+        re-bound) range in nanometres, so every group is searched over the same physical range"""
+        from translate import find_def
+
+        def once_per_group(qual):
+            fn = find_def(tree, qual)
+            t = norm(ast.unparse(fn))
+            # `max_shifts` is bound exactly once (its normalisation) and that binding is not inside a loop
+            binds = [n for n in ast.walk(fn) if isinstance(n, (ast.Assign, ast.AugAssign, ast.AnnAssign))
+                     and any(isinstance(x, ast.Name) and x.id == "max_shifts" for tg in (n.targets if isinstance(n, ast.Assign) else [n.target]) for x in ast.walk(tg))]
+            in_loop = [b for lp in ast.walk(fn) if isinstance(lp, (ast.For, ast.While)) for b in ast.walk(lp) if b in binds]
+            return (len(binds) == 1 and not in_loop and "max_shifts=_normalize_max_shifts(max_shifts)" in t
+                    and t.count("_max_shifts_px=tuple(np.asarray(max_shifts)/loader.scale)") == 1 and "max_shifts=_max_shifts_px" in t
+                    and t.count("/loader.scale") == 2)          # the range once, the positions once
+        t_nt = norm(ast.unparse(find_def(tree, "LoaderGroup.align_no_template")))
+        ok = lambda c: "true" if c else "false"
+        al, mt = once_per_group("LoaderGroup.align"), once_per_group("LoaderGroup.align_multi_templates")
+        nt = "max_shifts=max_shifts" in t_nt and "/loader.scale" not in t_nt and "/self" not in t_nt and "returnself.align(" in t_nt
+        return ("(* number of divisions of max_shifts by the scale on the way to model.align for each group, per group entry point:\n"
+                "   0 LoaderGroup.align, 1 LoaderGroup.align_multi_templates, 2 LoaderGroup.align_no_template; -1 = not recognised *)\n"
+                f"Definition group_max_shift_divisions (entry : Z) : Z :=\n  match entry with\n  | 0 => if {ok(al)} then 1 else -1\n"
+                f"  | 1 => if {ok(mt)} then 1 else -1\n  | 2 => if {ok(nt)} && {ok(al)} then 1 else -1\n  | _ => -1\n  end.")
+    a.raw("group_max_shift_divisions", "acryo/loader/_group.py", "", "how often max_shifts is divided by the scale for each group, per group entry point", group_units_flow)
     for fn in ("_post_align", "_post_align_multi_templates"):
         a.fact(f"{fn.strip('_')}_uses_linear_transform", LB, f"LoaderBase.{fn}", "rotator = from_quat(local_rot); linear_transform(local_shifts, rotator)",
                lambda f: all(t in norm(ast.unparse(f)) for t in
